@@ -11,6 +11,7 @@ RULE = ("seeded runs of the real uploader/downloader on a simulated grid: k<=N<=
         "sizes concentrated on 0/55/56, segment and k boundaries; delivery order of every server answer drawn per message (uniform/heavy-tailed/FIFO latency), "
         "write-batch size, read chunk size, share-layout version, overdue timer and finder parallelism randomised per run; reads through a fresh client; "
         "non-trivial = an upload completed and a read/oracle ran; distinct = (probe counts, k, n, size) fingerprint")
+RULE += '; one run in four each: immutable round trip, mutable create/write histories with several files per client, uploads on grids with full/read-only/slow servers and pre-existing shares, check/repair with add-lease -- the secrets of every allocate_buckets / add_lease / slot_testv_and_readv_and_writev on the wire are compared with a hashlib-only derivation'
 TECHNIQUE = "deterministic simulation: seeded schedules over a simulated network/reactor, byte-exact and independent-decoder oracles"
 LEVEL_TEXT = "seeded search over inputs, configurations and delivery schedules; sampling, not enumeration"
 LEVEL_NOTE = ("real: allmydata.client._Client, Uploader/Encoder/Tahoe2ServerSelector, downloader, StorageFarmBroker/NativeStorageServer, StorageServer; "
